@@ -40,7 +40,7 @@ class MergeModel(Comp):
 
     def gen(self, rng, tier, scale=1.0):
         pre = []
-        for i in range(self.n(tier, 400, 12000, scale)):
+        for i in range(self.n(tier, 1500, 15000, scale)):
             m, ig = tree_case(rng, userord=(i % 3 == 0), state=(i % 3 == 0), meta_prob=0.05 if i % 2 else 0.0)
             if i % 7 == 0:
                 ig.edp = 0.8                # many explicit nodes that carry the default value
